@@ -133,7 +133,7 @@ WORDS = ["alpha", "Beta", "gamma", "1 U.S. 1", "x &amp; y", "Foo v. Bar", "délt
          "&amp;lt;b&amp;gt;", "R&amp;amp;D", "&amp;#167; 5", "&amp;copy 1999", "&amp;nbsp;"]
 INL = ["i", "em", "b", "span", "a", "u", "sup"]
 BLK = ["p", "div", "blockquote", "section"]
-HID = ["script", "style"]
+HID = ["script", "style", "SCRIPT", "Style"]     # the parser ignores the case of tag names
 ENT = {"&amp;": "&", "&lt;": "<", "&#167;": "§", "&#160;": "\u00a0", "&#12;": "\x0c"}
 XML_WS = " \t\r\n"     # what XPath normalize-space() regards as white space
 
@@ -185,7 +185,7 @@ def expected_visible(doc):
             if cur.strip(XML_WS):
                 nodes.append(cur)
             cur = ""
-            if m.group(2) in HID:
+            if m.group(2).lower() in ("script", "style"):
                 hidden += -1 if m.group(1) else 1
     if cur.strip(XML_WS):
         nodes.append(cur)
